@@ -201,6 +201,9 @@ def run(ctx, chk, tier="quick"):
         "CPython sqlite3 legacy transaction control: implicit BEGIN before DML, none before DDL/SELECT",
         "O5 is a sufficient condition (labelled): a new read of another step's table is reported as a hazard",
     ]
+    from ..sqlrules import conflict_clauses
+    conflict_clauses(ctx, chk, "C20.O2", ("classify", "zeta_grid", "set_curvature", "rise", "recession"), "steps",
+                     "a step re-run on a file that already holds its rows must fail and leave the file as it was; with OR IGNORE / OR REPLACE it commits a mixture of old and new rows")
     dispatch, branches = dispatch_branches(ctx)
     steps = {}
     for name in STEPS:
